@@ -15,7 +15,8 @@ CODES = {1: "ABMF answer differs from the model", 2: "stored balances differ fro
          31: "C07 monitor: refund whose sum exceeds int64 wraps the stored balance",
          5: "RF answer differs from the model", 6: "C08 monitor: no answer for a known account, or price/allowed units not exact",
          8: "unit cost derived by the CHF (getUnitCost, observed as ChfUe.UnitCost) differs from the model",
-         9: "C08 monitor: the CHF derives a unit cost different from the one the rating server applied"}
+         9: "C08 monitor: the CHF derives a unit cost different from the one the rating server applied",
+         10: "C08 monitor: a stored unit cost made of decimal digits is not priced as that number (one consumed unit)"}
 KNOWN_KEYS = {31: "C07/int64-overflow"}
 
 COSTS = ["1", "2", "7", "007", "1000", "0", "", ".", "abc", "-3", "+5", "1.5", "0.5", "2.50", "1.0000000000", "99999999999999999999",
@@ -292,7 +293,7 @@ def run(ctx, replay=None):
     by_code = {}
     for t in mism:
         by_code.setdefault(t[2], []).append(t)
-    mon = [3, 31] if pid == "C07" else [6, 9]
+    mon = [3, 31] if pid == "C07" else [6, 9, 10]
     corr = [1, 2] if pid == "C07" else [5, 8]
     found = False
     for code in mon:
